@@ -394,6 +394,7 @@ def _check_init(col, crate, rid, P, SZ):
     reset = util.need_body(crate, "DSU::reset")
     I = util.analyse(reset)
     n = ("param", 2, I.names.get(2))
+    selfp_r = ("deref", ("param", 1, I.names.get(1)))
     done = {P: False, SZ: False}
     resized = {P: False, SZ: False}
     # loop-body stores are on the back-edge states; trace partitioning gives one state per path through
@@ -443,6 +444,27 @@ def _check_init(col, crate, rid, P, SZ):
     for head, sts in I.backedge_states.items():
         for f in want:
             if sts and all(any(ev.kind == "store" and conforming(ev, f) for ev in st.event_list()) for st in sts):
+                done[f] = True
+        # iterator forms over the whole array: for (i, x) in self.F.iter_mut().enumerate() { *x = i }
+        # and for x in self.F.iter_mut() { *x = 1 }
+        for f in want:
+            okall = bool(sts)
+            for st in sts:
+                evs = st.event_list()
+                li = max(k for k, e in enumerate(evs) if e.kind == "loop")
+                src = [e for e in evs[:li] if e.kind == "call" and e.extra.get("name") == "iter_mut" and e.args and any(x == ("field", selfp_r, f) for x in subterms(e.args[0]))]
+                enum_ = [e for e in evs[:li] if e.kind == "call" and e.extra.get("name") == "enumerate" and src and any(x == src[-1].res for x in [e.args[0]] + list(subterms(e.args[0])))]
+                nx = [e for e in evs[li:] if e.kind == "call" and e.extra.get("name") == "next"]
+                sts_ = [e for e in evs[li:] if e.kind == "store"]
+                if not src or not nx or len(sts_) != 1:
+                    okall = False
+                    continue
+                P_ = ("proj", 0, ("down", nx[-1].res, 1))
+                if want[f] == "index":
+                    okall = okall and bool(enum_) and sts_[0].place == ("deref", ("proj", 1, P_)) and sts_[0].val == ("proj", 0, P_)
+                else:
+                    okall = okall and not enum_ and sts_[0].place == ("deref", P_) and sts_[0].val == mk_int(1)
+            if okall:
                 done[f] = True
     for f in want:
         if stray[f]:
